@@ -267,6 +267,39 @@ fn main() {
         Some("run1") => cmd_run1(&args[2..]),
         Some("selfcheck") => cmd_selfcheck(&args[2..]),
         Some("survey") => cmd_survey(&args[2..]),
+        Some("stabilise-json") => {
+            // rewrites every "src/x.rs:LINE" string of the given JSON files into the stable site form
+            fn walk(v: &mut serde_json::Value, n: &mut usize) {
+                match v {
+                    serde_json::Value::String(s) => {
+                        let t = simcore::site::stable_from_str(s);
+                        if t != *s {
+                            *s = t;
+                            *n += 1;
+                        }
+                    }
+                    serde_json::Value::Array(a) => a.iter_mut().for_each(|x| walk(x, n)),
+                    serde_json::Value::Object(o) => o.values_mut().for_each(|x| walk(x, n)),
+                    _ => {}
+                }
+            }
+            for f in &args[2..] {
+                let mut v: serde_json::Value = match std::fs::read(f).ok().and_then(|b| serde_json::from_slice(&b).ok()) {
+                    Some(v) => v,
+                    None => {
+                        eprintln!("cannot read {}", f);
+                        continue;
+                    }
+                };
+                let mut n = 0;
+                walk(&mut v, &mut n);
+                if n > 0 {
+                    let _ = std::fs::write(f, serde_json::to_vec_pretty(&v).unwrap_or_default());
+                }
+                println!("{} {}", n, f);
+            }
+            0
+        }
         Some("list") => {
             for p in PROPS {
                 println!("{} {} {}", p.id, p.engine, p.profile);
